@@ -280,5 +280,10 @@ structure CurFree (g : GState) (m : Nat) : Prop where
   no_int : ∀ p ∈ g.internals, p.1 ≠ m ∧ p.2 ≠ m
   no_frm : ∀ p ∈ g.fd.frm, p.1 ≠ m
 
+/-- no internal node is attached to the node of a source (true of the empty state and kept by every
+expression whose spines have operators at their heads); needed when a source of function type is
+passed as an operation, since internal nodes attached to the argument's node are fed by the new one -/
+def SrcNoInt (g : GState) : Prop := ∀ p ∈ g.internals, ∀ s ∈ g.srcNodes, p.1 ≠ s.2
+
 end Tfv
 
